@@ -23,3 +23,25 @@ Section WithMemory.
         Ok tt (rset s2 t (load_value (if iset_of s2 =? 0 then LWordArm else LWordThumb) s2 address data))
     end.
 End WithMemory.
+
+(* literal (PC-relative) loads: base = Align(PC, 4), offset addressing, no write-back (A8.8.64, 69, 81, 85, 89) *)
+Definition lit_address (s : machine) (add imm32 : Z) : Z := ls_address (Align (rget s 15) 4) imm32 add 1.
+Section Literal.
+  Variable rd : Z -> Z -> M machine Z.
+  Variables (arch jaz : Z).
+  Definition LOAD_lit (k : lkind) (s : machine) (add imm32 t : Z) : outcome machine unit :=
+    let address := lit_address s add imm32 in
+    match rd address (lsize k) s with
+    | Exc e s' => Exc e s'
+    | Ok data s1 => Ok tt (rset s1 t (load_value k s1 address data))
+    end.
+  (* LDR (literal): rotated in ARM state, UNKNOWN otherwise, on a misaligned address without unaligned support; Rt = PC branches *)
+  Definition LOAD_lit_word (s : machine) (add imm32 t : Z) : outcome machine unit :=
+    let address := lit_address s add imm32 in
+    match rd address 4 s with
+    | Exc e s' => Exc e s'
+    | Ok data s1 =>
+        if t =? 15 then (if bits address 1 0 =? 0 then Ok tt (apply_pc s1 (LoadWritePC arch (cpsr_of s1) jaz data)) else Ok tt s1)
+        else Ok tt (rset s1 t (load_value (if iset_of s1 =? 0 then LWordArm else LWordThumb) s1 address data))
+    end.
+End Literal.
